@@ -630,6 +630,12 @@ func (nd *Node) Balance(address []byte) uint64 {
 	return a.Amount
 }
 
+// VoteConfigs is the governance-proposal mode of the controller's and the mempool's state machine
+// (ACCEPT_ALL outside proposal building / proposal validation).
+func (nd *Node) VoteConfigs() string {
+	return fmt.Sprintf("controller FSM %s, mempool FSM %s", nd.C.FSM.ProposalVoteConfig(), nd.C.Mempool.FSM.ProposalVoteConfig())
+}
+
 // PoolAmount is the balance of a pool of the node's working state (0 when absent).
 func (nd *Node) PoolAmount(id uint64) uint64 {
 	nd.enter()
